@@ -110,7 +110,8 @@ class CallbackSpec:
         return f"{type(self).__name__}({self.func!r}, is_convention={self.is_convention!r})"
 
     def __str__(self):
-        name = getattr(self.func, "__name__", self.func)
+        # (a property object has no ``__name__``: its getter's name was kept as ``attr_name``)
+        name = getattr(self.func, "__name__", None) or self.attr_name
         if self.expected_value is False:
             name = f"!{name}"
         return name
